@@ -557,6 +557,7 @@ type signer struct {
 }
 
 var hashes = []crypto.Hash{crypto.SHA256, crypto.SHA512, crypto.SHA384, crypto.SHA224, crypto.SHA1}
+var chunkers = pgpkit.Chunkers(vutil.Seed())
 var gpgHashes = []crypto.Hash{crypto.SHA256, crypto.SHA512, crypto.SHA384}
 var hashNames = map[crypto.Hash]string{crypto.SHA256: "SHA256", crypto.SHA512: "SHA512", crypto.SHA384: "SHA384", crypto.SHA224: "SHA224", crypto.SHA1: "SHA1"}
 
@@ -671,6 +672,19 @@ func (j *judge) clearCase(txt []byte, want refClear, s signer, h crypto.Hash, rn
 	if _, err := openpgp.CheckDetachedSignature(ring, bytes.NewReader(want.Signed), bytes.NewReader(o.sig)); err != nil {
 		det["err"] = err.Error()
 		j.viol("clearsign-signature-model-bytes", "the embedded signature does not verify over the canonical signed bytes predicted by the model", det)
+	}
+	// ... however the verifier's reader cuts the bytes: Bytes has CR LF between lines and text-mode verification goes through the
+	// canonical-text hash wrapper, which must carry its "previous byte was CR" state from one Write to the next (spec/CanonText.tla)
+	readers := []string{"afterCR"} // stateless chunkers: clearCase runs in several goroutines
+	if len(txt)%4 == 3 || len(txt) > 64 {
+		readers = append(readers, "onebyte", "k7")
+	}
+	for _, name := range readers {
+		if _, err := openpgp.CheckDetachedSignature(ring, chunkers[name](want.Signed), bytes.NewReader(o.sig)); err != nil {
+			det["err"], det["reader"] = err.Error(), name
+			j.viol("clearsign-signature-chunked", "the embedded signature does not verify when the signed bytes reach the verifier in pieces ("+name+")", det)
+			break
+		}
 	}
 	// negative control on the verifier: one more byte must not verify
 	if _, err := openpgp.CheckDetachedSignature(ring, bytes.NewReader(append(append([]byte{}, want.Signed...), 'x')), bytes.NewReader(o.sig)); err == nil {
